@@ -4,6 +4,7 @@
    the invariant ranges over every day of that year) so that all TLC workers are used. *)
 EXTENDS Cal, TLC
 CONSTANTS YMin, YMax
+YMinFull == -401
 VARIABLES m, y
 Init == m \in Modes /\ y = YMin
 Next == y < YMax /\ y' = y + 1 /\ m' = m
